@@ -19,7 +19,7 @@ from lv import core, model, gen, drive, sqlscope
 from lv.props import common
 
 ID = 'C09'
-BUDGET = {'quick': 300, 'thorough': 6000}        # generated programs (x 8 engines)
+BUDGET = {'quick': 240, 'thorough': 5000}        # generated programs (x 8 engines)
 WALL = {'quick': 600, 'thorough': 3600}
 ENGINES = list(sqlscope.ENGINES)
 RULE = ('programs from the typed core-fragment generator (facts, joins, multi-rule and '
